@@ -9,7 +9,7 @@ os.makedirs(SEEDED, exist_ok=True)
 if os.path.isdir(SRC):
     for d in sorted(os.listdir(SRC)):
         p = f"{SRC}/{d}"
-        if re.fullmatch(r"C\d\d_\d", d) and os.path.exists(f"{p}/verified.json"):
+        if re.fullmatch(r"C\d\d_[0-9a-z]", d) and os.path.exists(f"{p}/verified.json"):
             v = json.load(open(f"{p}/verified.json"))
             if v["status"] == "ok" and not os.path.exists(f"{SEEDED}/{d}/patch.diff"):
                 os.makedirs(f"{SEEDED}/{d}", exist_ok=True)
@@ -20,7 +20,7 @@ if os.path.isdir(SRC):
                 meta["verified_how"] = ("tools/verify_seeded.sh in a scratch worktree: patch applies; demo passes on unchanged code and fails "
                                         "with the change; cargo test --workspace pass set = the 217 baseline tests, same 10 failures")
                 json.dump(meta, open(f"{SEEDED}/{d}/meta.json", "w"), indent=1, ensure_ascii=False)
-ids = sys.argv[1:] or sorted(d for d in os.listdir(SEEDED) if re.fullmatch(r"C\d\d_\d", d))
+ids = sys.argv[1:] or sorted(d for d in os.listdir(SEEDED) if re.fullmatch(r"C\d\d_[0-9a-z]", d))
 results_path = f"{SEEDED}/results.json"
 results = json.load(open(results_path)) if os.path.exists(results_path) else {}
 env = dict(os.environ, VERIF_SKIP_PROOF="1", VERIF_EVIDENCE_DIR="/tmp/seeded_evidence")
